@@ -1,26 +1,47 @@
-//! A REAL signer: `StateMachine` + `SignerRunner` + the real services over FILE-BACKED sqlite
-//! (so that a restart really restarts on the signer's own files), real `KesSignerStandard` over the
-//! fixture's key files, real `AggregatorHttpClient` (-> front -> real aggregator router), the
-//! production signature publisher stack (delayer / retrier). Doubles only for the Cardano node:
-//! the signer's OWN chain observer (kept in step with the world's by the harness, except during a
-//! node-lag window), immutable file observer and digester (both SHARED with the aggregator), block
-//! scanner. The assembly follows mithril-signer/tests/test_extensions/state_machine_tester.rs and
-//! dependency_injection/builder.rs.
+//! A REAL signer: `StateMachine` + `SignerRunner` over the container that the signer's OWN
+//! `mithril_signer::dependency_injection::DependenciesBuilder::build()` returns (the production wiring
+//! is code under test: nothing of it is copied here). `build()` runs on a `Configuration` (from
+//! `Configuration::new_sample`: devnet, bootstrap era reader adapter, no DMQ socket, metrics server off)
+//! that names the signer's own directories, its own listener of the front as aggregator endpoint, the
+//! fixture's KES key / operational certificate files, the store retention limit and the signature
+//! publisher settings (retry attempts 1-3, delays of 1 ms, delayer not skipped).
+//!
+//! REAL, exactly as `build()` made them: the certifier with the production signature-publisher stack
+//! (delayer / retriers / no-op or aggregator HTTP client), the aggregator HTTP client (registration
+//! publisher, registrations retriever, signature publisher), the network configuration provider, the
+//! epoch service, the single signer (party id computed from the operational certificate), the
+//! protocol-initializer / stake / signed-beacon stores over FILE-BACKED sqlite (a restart really
+//! restarts on the signer's own files), the upkeep service, the KES signer, the era reader / checker,
+//! the API version provider, the metrics service, the signed entity type lock, and the ticker -- built
+//! by `build()` itself over the doubles that its two override hooks
+//! (`override_chain_observer_builder`, `override_immutable_file_observer_builder`) hand over.
+//!
+//! DOUBLES, for the Cardano node only: the signer's OWN chain observer (kept in step with the
+//! world's by the harness, except during a node-lag window) and the immutable file observer SHARED
+//! with the aggregator -- both through the override hooks; and, overwritten in the returned container
+//! because they must compute the same messages as the aggregator's doubles: the digester (the
+//! aggregator's `DumbImmutableDigester`), the signable builder service (the real
+//! `MithrilSignableBuilderService`, seed builder and signable builders, re-assembled over that digester
+//! and a `DumbBlockScanner` instead of the Pallas chain reader, on the SAME epoch service and protocol
+//! initializer store Arcs that `build()` created; the stake distribution retriever and the chain data
+//! store are the real repositories over connections of their own to the signer's sqlite files,
+//! because `build()` keeps its connections to itself) and the Cardano transactions preloader
+//! (disabled; same importer as the signable builders).
 use std::collections::HashMap;
 use std::path::{Path, PathBuf};
-use std::sync::Arc;
+use std::sync::{Arc, Mutex, OnceLock};
 use std::time::Duration;
-use tokio::sync::RwLock;
 
-use mithril_aggregator_client::AggregatorHttpClient;
 use mithril_cardano_node_chain::{
     chain_importer::CardanoChainDataImporter,
+    chain_observer::ChainObserver,
     test::double::{DumbBlockScanner, FakeChainObserver},
 };
-use mithril_cardano_node_internal_database::signable_builder::CardanoDatabaseSignableBuilder;
+use mithril_cardano_node_internal_database::{
+    signable_builder::CardanoDatabaseSignableBuilder, test::double::DumbImmutableFileObserver, ImmutableFileObserver,
+};
 use mithril_common::{
-    api_version::APIVersionProvider,
-    crypto_helper::{KesSigner, KesSignerStandard, ProtocolInitializer},
+    crypto_helper::ProtocolInitializer,
     entities::{BlockNumber, Epoch, StakeDistribution, TimePoint},
     signable_builder::{
         CardanoBlocksTransactionsSignableBuilder, CardanoStakeDistributionSignableBuilder, CardanoTransactionsSignableBuilder,
@@ -29,26 +50,48 @@ use mithril_common::{
     test::builder::SignerFixture,
     StdResult,
 };
-use mithril_era::{EraChecker, EraReader};
 use mithril_persistence::store::StakeStorer;
-use mithril_protocol_config::http::HttpMithrilNetworkConfigurationProvider;
-use mithril_signed_entity_lock::SignedEntityTypeLock;
 use mithril_signed_entity_preloader::{CardanoTransactionsPreloader, CardanoTransactionsPreloaderActivation};
 use mithril_signer::{
-    database::repository::{ProtocolInitializerRepository, SignedBeaconRepository, SignerCardanoChainDataRepository, StakePoolStore},
-    dependency_injection::{DependenciesBuilder, SignerDependencyContainer},
-    services::{
-        MithrilEpochService, MithrilSingleSigner, SignaturePublishRetryPolicy, SignaturePublisher, SignaturePublisherDelayer,
-        SignaturePublisherNoop, SignaturePublisherRetrier, SignerCertifierService, SignerChainDataImporter, SignerSignableSeedBuilder,
-        SignerSignedEntityConfigProvider, SignerUpkeepService,
-    },
+    database::repository::{ProtocolInitializerRepository, SignerCardanoChainDataRepository, StakePoolStore},
+    dependency_injection::DependenciesBuilder,
+    services::{SignerChainDataImporter, SignerSignableSeedBuilder},
     store::{MKTreeStoreSqlite, ProtocolInitializerStorer},
-    Configuration, MetricsService, SignerRunner, SignerState, StateMachine,
+    Configuration, SignerRunner, SignerState, StateMachine,
 };
 use mithril_ticker::{MithrilTickerService, TickerService};
 use mon_agg::sim::World;
 
-use crate::front::SIGNER_HEADER;
+/// The Cardano node a signer process finds when it starts: the override hooks of the signer's
+/// `DependenciesBuilder` are plain `fn(&Configuration)` pointers (they cannot capture anything), so the
+/// doubles are looked up by the `db_directory` of the configuration (unique per signer and history).
+struct NodeDoubles {
+    chain_observer: Arc<FakeChainObserver>,
+    immutable_file_observer: Arc<DumbImmutableFileObserver>,
+}
+
+fn nodes() -> &'static Mutex<HashMap<PathBuf, NodeDoubles>> {
+    static NODES: OnceLock<Mutex<HashMap<PathBuf, NodeDoubles>>> = OnceLock::new();
+    NODES.get_or_init(|| Mutex::new(HashMap::new()))
+}
+
+fn chain_observer_of(config: &Configuration) -> StdResult<Arc<dyn ChainObserver>> {
+    nodes()
+        .lock()
+        .unwrap()
+        .get(&config.db_directory)
+        .map(|n| n.chain_observer.clone() as Arc<dyn ChainObserver>)
+        .ok_or_else(|| anyhow::anyhow!("no Cardano node double registered for {}", config.db_directory.display()))
+}
+
+fn immutable_file_observer_of(config: &Configuration) -> StdResult<Arc<dyn ImmutableFileObserver>> {
+    nodes()
+        .lock()
+        .unwrap()
+        .get(&config.db_directory)
+        .map(|n| n.immutable_file_observer.clone() as Arc<dyn ImmutableFileObserver>)
+        .ok_or_else(|| anyhow::anyhow!("no Cardano node double registered for {}", config.db_directory.display()))
+}
 
 pub fn signer_logger() -> slog::Logger {
     if std::env::var("VERIF_SIGNER_LOG").is_ok() {
@@ -113,16 +156,25 @@ impl SignerNode {
     }
 
     fn config(&self) -> Configuration {
-        Configuration {
+        let mut config = Configuration {
             db_directory: self.dir.join("db"),
             data_stores_directory: self.dir.join("stores"),
+            // this signer's own listener of the front
             aggregator_endpoint: self.url.clone(),
             kes_secret_key_path: Some(self.kes_secret_key_path.clone()),
             operational_certificate_path: Some(self.operational_certificate_path.clone()),
             store_retention_limit: self.settings.retention,
             enable_metrics_server: false,
+            // the real digester is replaced by the aggregator's double: no cache file needed
+            disable_digests_cache: true,
             ..Configuration::new_sample(&self.party_id)
-        }
+        };
+        // the production wiring reads the publication policy from the configuration
+        config.signature_publisher_config.retry_attempts = self.settings.publish_attempts;
+        config.signature_publisher_config.retry_delay_ms = 1;
+        config.signature_publisher_config.delayer_delay_ms = 1;
+        config.signature_publisher_config.skip_delayer = false;
+        config
     }
 
     pub fn is_up(&self) -> bool {
@@ -156,7 +208,7 @@ impl SignerNode {
         std::fs::create_dir_all(&config.data_stores_directory)?;
         std::fs::create_dir_all(&config.db_directory)?;
         let logger = signer_logger();
-        let machine = build_state_machine(&config, world, self.observer.clone(), self.block_scanner.clone(), self.idx, &self.settings, logger).await?;
+        let machine = build_state_machine(&config, world, self.observer.clone(), self.block_scanner.clone(), logger).await?;
         self.machine = Some(machine);
         self.restarts += 1;
         Ok(())
@@ -200,44 +252,30 @@ async fn build_state_machine(
     world: &World,
     chain_observer: Arc<FakeChainObserver>,
     block_scanner: Arc<DumbBlockScanner>,
-    idx: usize,
-    settings: &SignerSettings,
     logger: slog::Logger,
 ) -> StdResult<StateMachine> {
-    let dependencies_builder = DependenciesBuilder::new(config, logger.clone());
-    let sqlite_connection = Arc::new(dependencies_builder.build_main_sqlite_connection(SQLITE_FILE).await?);
+    // ---- the production wiring, on this signer's own Cardano node doubles
+    nodes().lock().unwrap().insert(
+        config.db_directory.clone(),
+        NodeDoubles { chain_observer: chain_observer.clone(), immutable_file_observer: world.immutable_file_observer.clone() },
+    );
+    let mut dependencies_builder = DependenciesBuilder::new(config, logger.clone());
+    dependencies_builder
+        .override_chain_observer_builder(chain_observer_of)
+        .override_immutable_file_observer_builder(immutable_file_observer_of);
+    let built = dependencies_builder.build().await;
+    nodes().lock().unwrap().remove(&config.db_directory);
+    let mut services = built?;
+
+    // ---- what must agree with the aggregator's doubles: the messages to sign are computed over the
+    // aggregator's dumb digester and over a dumb block scanner (the node's, it survives a restart of the
+    // signer) instead of the Pallas chain reader; everything else of the container stays what build() made.
+    // The signable builders work on the epoch service and the stores build() created (the certifier
+    // and the single signer hold the same ones).
     let sqlite_connection_cardano_transaction_pool =
         Arc::new(dependencies_builder.build_cardano_tx_sqlite_connection_pool(SQLITE_FILE_CARDANO_TRANSACTION, 1).await?);
-    let retention = config.store_retention_limit.map(|l| l as u64);
-
-    // the signer's own node: its ticker, its registration (KES period) and its stake distribution
-    // all come from this observer, not from the aggregator's
-    let ticker_service = Arc::new(MithrilTickerService::new(chain_observer.clone(), world.immutable_file_observer.clone()));
     let digester = world.digester.clone();
-    let protocol_initializer_store = Arc::new(ProtocolInitializerRepository::new(sqlite_connection.clone(), retention));
-    let stake_store = Arc::new(StakePoolStore::new(sqlite_connection.clone(), retention));
-    let era_reader = Arc::new(EraReader::new(world.era_reader_adapter.clone()));
-    let era_epoch_token = era_reader.read_era_epoch_token(ticker_service.get_current_epoch().await?).await?;
-    let era_checker = Arc::new(EraChecker::new(era_epoch_token.get_current_supported_era()?, era_epoch_token.get_current_epoch()));
-    let api_version_provider = Arc::new(APIVersionProvider::new(era_checker.clone()));
-
-    // the real HTTP client of the signer, as built by the signer's DependenciesBuilder (plus a header
-    // that tells the front which signer is talking)
-    let aggregator_client = Arc::new(
-        AggregatorHttpClient::builder(config.aggregator_endpoint.clone())
-            .with_headers(HashMap::from([
-                ("signer-node-version".to_string(), "0.0.0-verif".to_string()),
-                (SIGNER_HEADER.to_string(), idx.to_string()),
-            ]))
-            .with_api_version_provider(api_version_provider.clone())
-            .with_timeout(Duration::from_millis(30000))
-            .with_logger(logger.clone())
-            .build()?,
-    );
-
-    let signed_entity_type_lock = Arc::new(SignedEntityTypeLock::default());
-    let mithril_stake_distribution_signable_builder = Arc::new(MithrilStakeDistributionSignableBuilder::default());
-    let chain_data_store = Arc::new(SignerCardanoChainDataRepository::new(sqlite_connection_cardano_transaction_pool.clone()));
+    let chain_data_store = Arc::new(SignerCardanoChainDataRepository::new(sqlite_connection_cardano_transaction_pool));
     let transactions_importer = Arc::new(SignerChainDataImporter::new(Arc::new(CardanoChainDataImporter::new(
         block_scanner,
         chain_data_store.clone(),
@@ -248,88 +286,37 @@ async fn build_state_machine(
         Arc::new(CardanoTransactionsSignableBuilder::<MKTreeStoreSqlite>::new(transactions_importer.clone(), block_range_root_retriever.clone()));
     let cardano_blocks_transactions_builder =
         Arc::new(CardanoBlocksTransactionsSignableBuilder::<MKTreeStoreSqlite>::new(transactions_importer.clone(), block_range_root_retriever));
-    let cardano_stake_distribution_builder = Arc::new(CardanoStakeDistributionSignableBuilder::new(stake_store.clone()));
+    // the container only exposes its stake store as `dyn StakeStorer`; the signable builder wants a
+    // `StakeDistributionRetriever`: the real `StakePoolStore` again, over a second connection to the
+    // same file (the repository holds no state of its own)
+    let stake_retriever = Arc::new(StakePoolStore::new(
+        Arc::new(dependencies_builder.build_main_sqlite_connection(SQLITE_FILE).await?),
+        config.store_retention_limit.map(|l| l as u64),
+    ));
+    let cardano_stake_distribution_builder = Arc::new(CardanoStakeDistributionSignableBuilder::new(stake_retriever));
     let cardano_database_signable_builder = Arc::new(CardanoDatabaseSignableBuilder::new(digester.clone(), Path::new(""), logger.clone()));
-    let epoch_service = Arc::new(RwLock::new(MithrilEpochService::new(
-        era_checker.clone(),
-        stake_store.clone(),
-        protocol_initializer_store.clone(),
-        logger.clone(),
-    )));
-    let party_id = config.party_id.to_owned().unwrap_or_default();
-    let single_signer = Arc::new(MithrilSingleSigner::new(party_id, epoch_service.clone(), logger.clone()));
-    let signable_seed_builder_service = Arc::new(SignerSignableSeedBuilder::new(epoch_service.clone(), protocol_initializer_store.clone()));
+    let signable_seed_builder_service =
+        Arc::new(SignerSignableSeedBuilder::new(services.epoch_service.clone(), services.protocol_initializer_store.clone()));
     let signable_builders_dependencies = SignableBuilderServiceDependencies::new(
-        mithril_stake_distribution_signable_builder,
+        Arc::new(MithrilStakeDistributionSignableBuilder::default()),
         cardano_transactions_builder,
         cardano_blocks_transactions_builder,
         cardano_stake_distribution_builder,
         cardano_database_signable_builder,
     );
-    let signable_builder_service = Arc::new(MithrilSignableBuilderService::new(signable_seed_builder_service, signable_builders_dependencies, logger.clone()));
-    let metrics_service = Arc::new(MetricsService::new(logger.clone())?);
-    let cardano_transactions_preloader = Arc::new(CardanoTransactionsPreloader::new(
-        signed_entity_type_lock.clone(),
-        transactions_importer.clone(),
+    services.digester = digester;
+    services.signable_builder_service =
+        Arc::new(MithrilSignableBuilderService::new(signable_seed_builder_service, signable_builders_dependencies, logger.clone()));
+    services.cardano_transactions_preloader = Arc::new(CardanoTransactionsPreloader::new(
+        services.signed_entity_type_lock.clone(),
+        transactions_importer,
         BlockNumber(0),
-        chain_observer.clone(),
+        chain_observer,
         logger.clone(),
         Arc::new(CardanoTransactionsPreloaderActivation::new(false)),
     ));
-    let signed_beacon_repository = Arc::new(SignedBeaconRepository::new(sqlite_connection.clone(), retention));
-    let upkeep_service = Arc::new(SignerUpkeepService::new(
-        sqlite_connection.clone(),
-        sqlite_connection_cardano_transaction_pool,
-        signed_entity_type_lock.clone(),
-        vec![signed_beacon_repository.clone(), stake_store.clone(), protocol_initializer_store.clone()],
-        logger.clone(),
-    ));
-    let network_configuration_service = Arc::new(HttpMithrilNetworkConfigurationProvider::new(aggregator_client.clone(), logger.clone()));
 
-    // production stack of the signature publisher (no DMQ node configured => first publisher is the no-op)
-    let signature_publisher: Arc<dyn SignaturePublisher> = {
-        let first = SignaturePublisherRetrier::new(Arc::new(SignaturePublisherNoop) as Arc<dyn SignaturePublisher>, SignaturePublishRetryPolicy::never());
-        let second = SignaturePublisherRetrier::new(
-            aggregator_client.clone(),
-            SignaturePublishRetryPolicy { attempts: settings.publish_attempts, delay_between_attempts: Duration::from_millis(1) },
-        );
-        Arc::new(SignaturePublisherDelayer::new(Arc::new(first), Arc::new(second), Duration::from_millis(1), logger.clone()))
-    };
-    let certifier = Arc::new(SignerCertifierService::new(
-        signed_beacon_repository.clone(),
-        Arc::new(SignerSignedEntityConfigProvider::new(epoch_service.clone())),
-        signed_entity_type_lock.clone(),
-        single_signer.clone(),
-        signature_publisher,
-        logger.clone(),
-    ));
-    let kes_signer = Some(Arc::new(KesSignerStandard::new(
-        config.kes_secret_key_path.clone().unwrap(),
-        config.operational_certificate_path.clone().unwrap(),
-    )) as Arc<dyn KesSigner>);
-
-    let services = SignerDependencyContainer {
-        signers_registration_retriever: aggregator_client.clone(),
-        ticker_service: ticker_service.clone(),
-        chain_observer: chain_observer.clone(),
-        digester: digester.clone(),
-        protocol_initializer_store: protocol_initializer_store.clone(),
-        single_signer: single_signer.clone(),
-        stake_store: stake_store.clone(),
-        era_checker: era_checker.clone(),
-        era_reader,
-        api_version_provider,
-        signable_builder_service,
-        metrics_service: metrics_service.clone(),
-        signed_entity_type_lock,
-        cardano_transactions_preloader,
-        upkeep_service,
-        epoch_service,
-        certifier,
-        signer_registration_publisher: aggregator_client.clone(),
-        kes_signer,
-        network_configuration_service,
-    };
+    let metrics_service = services.metrics_service.clone();
     let runner = Box::new(SignerRunner::new(config.clone(), services, logger.clone()));
     Ok(StateMachine::new(SignerState::Init, runner, Duration::from_secs(5), metrics_service, logger))
 }
